@@ -13,6 +13,7 @@ import re
 
 import vcommon as V
 
+JVM = ["-XX:ParallelGCThreads=2", "-XX:CICompilerCount=2"]   # many JVMs run side by side on a shared machine
 PAIR_KEYS = {"eq": False, "eqr": False, "he": False, "ins": False, "fn": False, "hm": False, "im": False, "panic": ""}
 VAL_KEYS = {"str": "", "mine": "", "alteq": False, "althe": False, "gerr": "", "gdec": "", "geq": False, "ghe": False,
             "gstr": "", "panic": ""}
@@ -109,7 +110,7 @@ def judge(specdir, root, name, tier, seed, nxt, files, vals, causal, nitems, tim
         where = write_govals(os.path.join(work, "GoVals.tla"), vals, causal, broken)
         with open(os.path.join(work, "ValueLawsObs.cfg"), "w") as f:
             f.write(cfg_text(tier, seed, start, nxt))
-        res = V.tlc(work, "ValueLawsObs", cfg="ValueLawsObs.cfg", workers=1, timeout=timeout, deadlock=False, extra=["-nowarning"])
+        res = V.tlc(work, "ValueLawsObs", cfg="ValueLawsObs.cfg", workers=1, timeout=timeout, deadlock=False, extra=["-nowarning"], heap="4g", jvm=JVM)
         results.append(res)
         n = 0
         for m in re.finditer(r'<<"V", "([a-z]+)", (\d+), "([A-Z_]+)", "([A-Z-]+)">>', res.out):
@@ -159,7 +160,7 @@ def run(chk):
     pool = concurrent.futures.ThreadPoolExecutor(max_workers=4)
     build = pool.submit(V.build_driver, "c05drv", chk.bindir)
     res = V.tlc(work, "MCValueLaws", cfg="MCValueLaws.cfg", workers=1, timeout=1500 if quick else 3000, deadlock=False,
-                extra=["-nowarning"])
+                extra=["-nowarning"], heap="4g", jvm=JVM)
     chk.add_tlc("MCValueLaws (%s): ModelIsTlaEqualityUpToSeqFn, ModelSound, PrintCanonical on every pair" % tier, res)
     if not res.ok or not os.path.exists(os.path.join(work, "vals.ndjson")):
         raise V.Inconclusive("design-level TLC run failed: %s" % (res.error or res.violation or res.out[-1500:]))
